@@ -176,53 +176,7 @@ func runC04(c *eng.Ctx) {
 	c.Rule("ATOMIC", famT+".rollup{single flight}", func() { singleFlight(c, famT+".rolluping", famT+".rollup") })
 
 	// ---- 5c. the reference key written by the target is the key it is looked up / deleted by --------------------------------------
-	c.Rule("SYMMETRY", famT+"{reference key = (source store, source family id, file)}", func() {
-		isSrcID := func(v ssa.Value, src ssa.Value) bool {
-			direct := func(x ssa.Value) bool {
-				cl, ok := x.(*ssa.Call)
-				return ok && cl.Common().IsInvoke() && cl.Common().Method.Name() == "ID" && cl.Common().Value == src
-			}
-			if direct(v) {
-				return true
-			}
-			// the id may travel through a helper's parameter; nothing else (no other call) may be mixed in
-			if _, isParam := v.(*ssa.Parameter); isParam {
-				return eng.DependsOn(v, direct)
-			}
-			return false
-		}
-		fromSrcStore := func(v ssa.Value, src ssa.Value) bool {
-			return eng.DependsOn(v, func(x ssa.Value) bool {
-				cl, ok := x.(*ssa.Call)
-				return ok && cl.Common().IsInvoke() && cl.Common().Method.Name() == "getStore" && cl.Common().Value == src
-			})
-		}
-		w := c.Fn(famT + ".doRollupWork")
-		src := ssa.Value(w.Params[1])
-		live := c.One(w, invokeOn(".familyVersion", "GetLiveReferenceFiles"), "GetLiveReferenceFiles(sourceStore)")
-		c.Check(fromSrcStore(eng.CallArgs(live.Instr.(*ssa.Call))[0], src), "lookup:store", live.Instr, w, "already-rolled-up files are looked up under the SOURCE store's name", "")
-		nl := 0
-		for _, b := range eng.BlocksT(w) {
-			for _, in := range b.Instrs {
-				if l, ok := in.(*ssa.Lookup); ok && eng.DependsOn(l.X, func(x ssa.Value) bool { return x == live.Instr.(ssa.Value) }) {
-					nl++
-					c.Check(isSrcID(l.Index, src), fmt.Sprintf("lookup:family-id[%d]", nl), l, w, "… and under the SOURCE family's id", "index "+p.Desc(l.Index))
-				}
-			}
-		}
-		c.Check(nl == 1, "lookup:found", live.Instr, w, "the live references are indexed once", fmt.Sprintf("%d", nl))
-		for i, r := range c.Some(w, eng.CallTo("kv/version.CreateNewReferenceFile"), "CreateNewReferenceFile") {
-			a := eng.CallArgs(r.Instr.(*ssa.Call))
-			c.Check(fromSrcStore(a[0], src) && isSrcID(a[1], src), fmt.Sprintf("write:key[%d]", i), r.Instr, w,
-				"the reference is recorded under (source store, source family id): the key the next rollup looks it up by and cleanReferenceFiles deletes it by", "records ("+p.Desc(a[0])+", "+p.Desc(a[1])+")")
-		}
-		cr := c.Fn(famT + ".cleanReferenceFiles")
-		csrc := ssa.Value(cr.Params[1])
-		for i, r := range c.Some(cr, eng.CallTo("kv/version.CreateDeleteReferenceFile"), "CreateDeleteReferenceFile") {
-			a := eng.CallArgs(r.Instr.(*ssa.Call))
-			c.Check(fromSrcStore(a[0], csrc) && isSrcID(a[1], csrc), fmt.Sprintf("delete:key[%d]", i), r.Instr, cr, "the reference is deleted under (source store, source family id)", "deletes ("+p.Desc(a[0])+", "+p.Desc(a[1])+")")
-		}
-	})
+	c.Rule("SYMMETRY", famT+"{reference key = (source store, source family id, file)}", func() { referenceKeySymmetry(c) })
 
 	// ---- 5d. version state bookkeeping of the marks ---------------------------------------------------------------------------------------
 	c.Rule("UNION", vsT+".createFamilySnapshot{rollup marks and references are enumerated from their own maps}", func() {
@@ -336,6 +290,64 @@ func runC04(c *eng.Ctx) {
 		c.Check(cmp, "slots-compared-across-blocks", aggs[0].Instr, f,
 			"the input blocks of one merge are folded one after the other, and Aggregate(acc, v) of a Last (First) field simply returns v (acc): which block comes last is an accident of file order (a Go map iteration in doRollupWork). For these field types the fold therefore remembers, per target position, the source slot of the value it holds and replaces it only by a value of a later (earlier) source slot",
 			"no comparison between the current source slot and a remembered slot exists: the last / first BLOCK wins")
+		// … and the remembered slot always belongs to the value that is held: wherever a raw value (not an aggregate) is stored into
+		// the target buffer, the slot array is updated before the iteration ends, unless the field type keeps no slots
+		isElemOf := func(addr ssa.Value, elem string) bool {
+			ia, ok := addr.(*ssa.IndexAddr)
+			if !ok {
+				return false
+			}
+			sl, ok := ia.X.Type().Underlying().(*types.Slice)
+			return ok && sl.Elem().String() == elem
+		}
+		var slotStores []eng.Site
+		for _, b := range f.Blocks {
+			for _, in := range b.Instrs {
+				if st, ok := in.(*ssa.Store); ok && isElemOf(st.Addr, "uint16") {
+					slotStores = append(slotStores, eng.Site{Fn: f, Instr: in})
+				}
+			}
+		}
+		noSlots := eng.EdgesWithFact(f, func(ft eng.Fact) bool {
+			if ft.Op != "eq" || ft.Y == nil || !eng.IsNilConst(ft.Y) {
+				return false
+			}
+			sl, ok := ft.X.Type().Underlying().(*types.Slice)
+			return ok && sl.Elem().String() == "uint16"
+		})
+		nRaw := 0
+		for _, b := range f.Blocks {
+			for _, in := range b.Instrs {
+				st, ok := in.(*ssa.Store)
+				if !ok || !isElemOf(st.Addr, "float64") {
+					continue
+				}
+				if eng.DependsOn(st.Val, func(x ssa.Value) bool {
+					cl, ok := x.(*ssa.Call)
+					return ok && (cl.Common().IsInvoke() && cl.Common().Method.Name() == "Aggregate" || cl.Common().StaticCallee() != nil && baseName(cl.Common().StaticCallee().Name()) == "Aggregate")
+				}) {
+					continue // an aggregate of old and new value: sum / min / max fields keep no slot
+				}
+				if _, isConst := st.Val.(*ssa.Const); isConst {
+					continue
+				}
+				nRaw++
+				header := innermostLoop(f, b)
+				_, unpaired := eng.PathExists(eng.PathQuery{Fn: f, After: in,
+					Target: func(x ssa.Instruction) bool {
+						if _, isRet := x.(*ssa.Return); isRet {
+							return true
+						}
+						return header != nil && x.Block() == header && x == header.Instrs[0]
+					},
+					Blocked: func(x ssa.Instruction) bool { return instrIn(x, slotStores) },
+					Edge:    eng.ForbidEdges(noSlots)})
+				c.Check(!unpaired, fmt.Sprintf("slot-follows-the-value[%d]", nRaw), in, f,
+					"whenever a First/Last field takes a new value into a target position, the position's remembered source slot is set to that value's slot in the same iteration; a stale slot lets a later block replace (or fail to replace) the value against the wrong reference",
+					"a path from this store to the next iteration sets no remembered slot although the field keeps slots")
+			}
+		}
+		c.Check(nRaw >= 2 && len(slotStores) >= 1, "raw-stores-found", nil, f, "values are taken over (first value of a position, replacement for First/Last)", fmt.Sprintf("%d raw stores, %d slot stores", nRaw, len(slotStores)))
 	})
 
 	// ---- slot of a timestamp inside its family: the offset from the family start is never folded below the family's length ------
@@ -451,4 +463,72 @@ func rollupCommitBeforeClean(c *eng.Ctx) {
 	}
 	cr := c.Fn(famT + ".cleanReferenceFiles")
 	c.Check(len(p.Sites(cr, eng.CallTo("kv/version.CreateDeleteReferenceFile"))) == 1 && p.MustPass(cr, eng.CallTo(famT+".commitEditLog"), 0), "clean-is-one-commit", nil, cr, "cleaning records the delete-reference entries and commits them", "")
+}
+
+func referenceKeySymmetry(c *eng.Ctx) {
+	p := c.P
+	_ = p
+	isSrcID := func(v ssa.Value, src ssa.Value) bool {
+		direct := func(x ssa.Value) bool {
+			cl, ok := x.(*ssa.Call)
+			return ok && cl.Common().IsInvoke() && cl.Common().Method.Name() == "ID" && cl.Common().Value == src
+		}
+		if direct(v) {
+			return true
+		}
+		// the id may travel through a helper's parameter; nothing else (no other call) may be mixed in
+		if _, isParam := v.(*ssa.Parameter); isParam {
+			return eng.DependsOn(v, direct)
+		}
+		return false
+	}
+	fromSrcStore := func(v ssa.Value, src ssa.Value) bool {
+		return eng.DependsOn(v, func(x ssa.Value) bool {
+			cl, ok := x.(*ssa.Call)
+			return ok && cl.Common().IsInvoke() && cl.Common().Method.Name() == "getStore" && cl.Common().Value == src
+		})
+	}
+	w := c.Fn(famT + ".doRollupWork")
+	src := ssa.Value(w.Params[1])
+	live := c.One(w, invokeOn(".familyVersion", "GetLiveReferenceFiles"), "GetLiveReferenceFiles(sourceStore)")
+	c.Check(fromSrcStore(eng.CallArgs(live.Instr.(*ssa.Call))[0], src), "lookup:store", live.Instr, w, "already-rolled-up files are looked up under the SOURCE store's name", "")
+	nl := 0
+	for _, b := range eng.BlocksT(w) {
+		for _, in := range b.Instrs {
+			if l, ok := in.(*ssa.Lookup); ok && eng.DependsOn(l.X, func(x ssa.Value) bool { return x == live.Instr.(ssa.Value) }) {
+				nl++
+				c.Check(isSrcID(l.Index, src), fmt.Sprintf("lookup:family-id[%d]", nl), l, w, "… and under the SOURCE family's id", "index "+p.Desc(l.Index))
+			}
+		}
+	}
+	c.Check(nl == 1, "lookup:found", live.Instr, w, "the live references are indexed once", fmt.Sprintf("%d", nl))
+	for i, r := range c.Some(w, eng.CallTo("kv/version.CreateNewReferenceFile"), "CreateNewReferenceFile") {
+		a := eng.CallArgs(r.Instr.(*ssa.Call))
+		c.Check(fromSrcStore(a[0], src) && isSrcID(a[1], src), fmt.Sprintf("write:key[%d]", i), r.Instr, w,
+			"the reference is recorded under (source store, source family id): the key the next rollup looks it up by and cleanReferenceFiles deletes it by", "records ("+p.Desc(a[0])+", "+p.Desc(a[1])+")")
+	}
+	cr := c.Fn(famT + ".cleanReferenceFiles")
+	csrc := ssa.Value(cr.Params[1])
+	for i, r := range c.Some(cr, eng.CallTo("kv/version.CreateDeleteReferenceFile"), "CreateDeleteReferenceFile") {
+		a := eng.CallArgs(r.Instr.(*ssa.Call))
+		c.Check(fromSrcStore(a[0], csrc) && isSrcID(a[1], csrc), fmt.Sprintf("delete:key[%d]", i), r.Instr, cr, "the reference is deleted under (source store, source family id)", "deletes ("+p.Desc(a[0])+", "+p.Desc(a[1])+")")
+	}
+	// one spelling of the store key on all three sides (look-up, record, delete): the source store's full name and its last path
+	// segment both "derive from the source store"; a look-up under one and a record under the other never meet
+	norm := func(v ssa.Value, fn *ssa.Function) string {
+		d := p.Desc(v)
+		for _, pr := range fn.Params {
+			d = strings.ReplaceAll(d, pr.Name()+".", "$.")
+		}
+		return d
+	}
+	lookupKey := norm(eng.CallArgs(live.Instr.(*ssa.Call))[0], w)
+	for i, r := range p.Sites(w, eng.CallTo("kv/version.CreateNewReferenceFile")) {
+		k := norm(eng.CallArgs(r.Instr.(*ssa.Call))[0], w)
+		c.Check(k == lookupKey, fmt.Sprintf("same-store-key:record[%d]", i), r.Instr, w, "the reference is recorded under the very store key it is looked up by", "look-up key "+lookupKey+", record key "+k)
+	}
+	for i, r := range p.Sites(cr, eng.CallTo("kv/version.CreateDeleteReferenceFile")) {
+		k := norm(eng.CallArgs(r.Instr.(*ssa.Call))[0], cr)
+		c.Check(k == lookupKey, fmt.Sprintf("same-store-key:delete[%d]", i), r.Instr, cr, "the reference is deleted under the very store key it is looked up by", "look-up key "+lookupKey+", delete key "+k)
+	}
 }
